@@ -2,6 +2,7 @@ import Gen.Frame
 import Model.MuxRx
 import Proofs.GenTieC12
 import Proofs.GenTieFrame
+import Proofs.GenTieFrameRd
 /-!
   Tie theorems between the pieces of `readHeader` REGENERATED from /repo/frame.go by tools/go2lean (`Gen.Frame`:
   version mask, header size, the header fields for both stream widths, `readInt`) and the hand-written receive
